@@ -53,6 +53,7 @@ static struct slot {
   int deleted;         /* del/del_root/del_raw called (by the harness or by an owner's destructor) */
   int child;           /* slot index or -1 */
   int owner;           /* destructor deletes the child */
+  int leaf;            /* leafy=1: an object of the destructor-less type Leaf */
 } S[NSLOT];
 static int alloc_at = -1;             /* slot the next Cell_Alloc must use */
 static char ledger_err[256];
@@ -213,6 +214,34 @@ var Cell = Cello(Cell,
   Instance(Alloc, Cell_Alloc, Cell_Dealloc),
   Instance(New,   Cell_New, Cell_Del));
 
+/* leafy=1: Leaf, a type of the same layout that has NO constructor and NO destructor (an Int, a Ref, a plain struct): there is
+** nothing to run when it is finalised, so the ledger counts its finalisation at the moment its memory is released.  A Leaf can
+** be linked to and owned (a Box of an Int), and link to others (a plain struct is scanned conservatively); it owns nothing. */
+struct Leaf { var child; int64_t id; int64_t owner; uint64_t canary; var child2; int64_t owner2; };
+extern var Leaf;
+static int leafy, want_leaf;
+static var Leaf_Alloc(void) {
+  if (alloc_at < 0) { lfail("alloc called with no address chosen"); alloc_at = MAXA + NSPARE - 1; }
+  char* obj = P(alloc_at);
+  struct Header* head = (struct Header*)(obj - sizeof(struct Header));
+  UNPOISON(head, sizeof(struct Header) + sizeof(struct Cell));
+  memset(head, 0, sizeof(struct Header) + sizeof(struct Cell));
+  struct Cell* c = (struct Cell*)obj;
+  c->id = alloc_at; c->canary = CANARY;
+  S[alloc_at].constructed = 1;
+  return header_init(head, Leaf, AllocHeap);
+}
+static void Leaf_Dealloc(var self) {
+  int s = slot_of(self);
+  if (s < 0) { lfail("dealloc of a pointer that is not an arena object"); return; }
+  if (s == reuse_slot && S[s].kind == K_ROOT) { lfail("dealloc of a Leaf at the address where a destructor has put a new root object (#%d)", s); return; }
+  S[s].fin++;
+  S[s].dealloc++;
+  if (S[s].dealloc > 1) lfail("memory of object #%d released twice", s);
+  POISON((char*)self - sizeof(struct Header), sizeof(struct Header) + sizeof(struct Cell));
+}
+var Leaf = Cello(Leaf, Instance(Alloc, Leaf_Alloc, Leaf_Dealloc));
+
 /* ---- fresh collector per execution ---------------------------------------------- */
 
 static var* stack_bottom;   /* address of a local in main: the collector's stack bottom */
@@ -317,7 +346,7 @@ static size_t canon(char* buf, size_t cap) {
   o += snprintf(buf + o, cap - o, " |");
   for (int s = 0; s < A && o + 32 < cap; s++) {
     static const char kc[] = "-srwu";
-    o += snprintf(buf + o, cap - o, " %c", kc[S[s].kind]);
+    o += snprintf(buf + o, cap - o, " %c%s", kc[S[s].kind], S[s].leaf ? "L" : "");
     if (S[s].child >= 0) o += snprintf(buf + o, cap - o, ">%d%s", S[s].child, S[s].owner ? "!" : "");
   }
   return o;
@@ -344,7 +373,7 @@ static int check1(void) {
     }
     if (expect) {
       struct Cell* c = P(s);
-      if (c->canary != CANARY || type_of(c) != Cell) { vf_violation(L("live-object-corrupted"), NULL, "live object #%d corrupted", s); return 1; }
+      if (c->canary != CANARY || type_of(c) != (S[s].leaf ? Leaf : Cell)) { vf_violation(L("live-object-corrupted"), NULL, "live object #%d corrupted", s); return 1; }
     }
   }
   if (gc->nitems != expect_n) { vf_violation(L("count"), NULL, "registry records %zu objects, %zu are live", gc->nitems, expect_n); return 1; }
@@ -373,10 +402,11 @@ static void __attribute__((noinline)) collect_tight(void) {
 /* ---- alphabet --------------------------------------------------------------------- */
 
 enum { OP_COLLECT, OP_FILL, OP_NEWRAW, OP_STOP, OP_START, OP_NMISC };
-static int nops_total(void) { return 5 * A + OP_NMISC; }
+static int nops_total(void) { return 5 * A + OP_NMISC + (leafy ? A : 0); }
 
 static void opname(int op, char* buf, size_t cap) {
-  if (op < A) snprintf(buf, cap, "new(#%d)", op);
+  if (op >= 5 * A + OP_NMISC) snprintf(buf, cap, "new-leaf(#%d)", op - 5 * A - OP_NMISC);
+  else if (op < A) snprintf(buf, cap, "new(#%d)", op);
   else if (op < 2 * A) snprintf(buf, cap, "new_root(#%d)", op - A);
   else if (op < 3 * A) snprintf(buf, cap, "del(#%d)", op - 2 * A);
   else if (op < 4 * A) snprintf(buf, cap, "link(#%d->#%d)", op - 3 * A, (op - 3 * A + 1) % A);
@@ -394,9 +424,10 @@ static int do_new(int s, int kind) {
   memcpy(snap, reachable, sizeof snap);
   int k = kind;
   if (stopped && (kind == K_STD || kind == K_ROOT)) k = K_UNREG;
-  S[s].kind = k; S[s].child = -1; S[s].owner = 0; S[s].fin = S[s].dealloc = S[s].deleted = S[s].constructed = 0;
+  S[s].kind = k; S[s].child = -1; S[s].owner = 0; S[s].fin = S[s].dealloc = S[s].deleted = S[s].constructed = 0; S[s].leaf = want_leaf;
   var e;
-  if (kind == K_STD) e = VF_CATCH(new(Cell));
+  if (want_leaf) e = VF_CATCH(new(Leaf));
+  else if (kind == K_STD) e = VF_CATCH(new(Cell));
   else if (kind == K_ROOT) e = VF_CATCH(new_root(Cell));
   else e = VF_CATCH(new_raw(Cell));
   alloc_at = -1;
@@ -455,6 +486,15 @@ static int apply(int op) {
 }
 
 static int __attribute__((noinline)) apply1(int op) {
+  if (op >= 5 * A + OP_NMISC) {
+    int s = op - 5 * A - OP_NMISC;
+    if (!leafy || S[s].kind != K_NONE || stopped) return VF_SKIP;
+    lastkind = "new-leaf";
+    want_leaf = 1;
+    int r = do_new(s, K_STD);
+    want_leaf = 0;
+    return r;
+  }
   if (op < 2 * A) {
     int s = op % A, kind = op < A ? K_STD : K_ROOT;
     if (S[s].kind != K_NONE) return VF_SKIP;
@@ -486,7 +526,7 @@ static int __attribute__((noinline)) apply1(int op) {
   }
   if (op < 5 * A) {
     int s = op - 4 * A;
-    if (S[s].kind == K_NONE || S[s].child < 0) return VF_SKIP;
+    if (S[s].kind == K_NONE || S[s].child < 0 || S[s].leaf) return VF_SKIP;   /* a Leaf has no destructor that could delete anything */
     int c = S[s].child;
     if (S[s].owner) { lastkind = "disown"; ((struct Cell*)P(s))->owner = 0; S[s].owner = 0; return VF_OK; }
     /* in contract: the owned object is a managed (non-root) object with exactly one owner and no other referrer, and owns nothing that loops back */
@@ -522,7 +562,7 @@ static int __attribute__((noinline)) apply1(int op) {
       if (S[s].kind != K_NONE) continue;
       size_t before = gc->nitems;
       alloc_at = s;
-      S[s].kind = K_STD; S[s].child = -1; S[s].owner = 0; S[s].fin = S[s].dealloc = S[s].deleted = S[s].constructed = 0;
+      S[s].kind = K_STD; S[s].child = -1; S[s].owner = 0; S[s].fin = S[s].dealloc = S[s].deleted = S[s].constructed = 0; S[s].leaf = 0;
       var e = VF_CATCH(new(Cell));
       alloc_at = -1; used++;
       if (e) { vf_violation(L("raises"), NULL, "allocation raised %s", vf_exc_name(e)); return VF_BAD; }
@@ -946,6 +986,7 @@ int main(int argc, char** argv) {
   rootsleft = (int)vf_param_i("rootsleft", 0);
   dtor_reuse = (int)vf_param_i("reuse", 0);
   dtor_keep = (int)vf_param_i("keep", 0);
+  leafy = (int)vf_param_i("leafy", 0);
   dtor_temps = (int)vf_param_i("temps", 0); if (dtor_temps > 4) dtor_temps = 4;
 
   size_t need = 8L * MODW * (20 + NSPARE + 4) + 8L * MODW + 4096;
